@@ -247,6 +247,12 @@ package forkexec
 //@   arith int
 //@   assigns nothing
 //@   loop 0: invariant -1 <= rangeindex && rangeindex < len(idMap)
+//@   abstracts result == fmtids(idMap)
+
+// default map of a new user namespace: container id 0 is the launcher's effective id
+//@ spec fmtids(m []syscall.SysProcIDMap) []byte
+//@ spec defmap(id int) string = "0 " + itoa(id) + " 1"
+//@ macro bytes_are(b, s) = len(b) == len(s) && forall q int :: 0 <= q && q < len(b) ==> b[q] == s[q]
 
 //@ func pkg/forkexec.writeIDMaps props C04
 //@   arith int
@@ -257,6 +263,10 @@ package forkexec
 //@   ensures result == nil ==> U.n == old(U.n) + 3 && U.path[old(U.n)] == "/proc/" + itoa(pid) + "/uid_map" && U.path[old(U.n) + 1] == "/proc/" + itoa(pid) + "/setgroups" && U.path[old(U.n) + 2] == "/proc/" + itoa(pid) + "/gid_map"
 //@   ensures result == nil && !(r.GIDMappings != nil && r.GIDMappingsEnableSetgroups) ==> U.data[old(U.n) + 1] == setGIDDeny
 //@   ensures result == nil && r.GIDMappings != nil && r.GIDMappingsEnableSetgroups ==> U.data[old(U.n) + 1] == setGIDAllow
+//@   ensures result == nil && r.UIDMappings != nil ==> U.data[old(U.n)] == fmtids(r.UIDMappings)
+//@   ensures result == nil && r.GIDMappings != nil ==> U.data[old(U.n) + 2] == fmtids(r.GIDMappings)
+//@   ensures result == nil && r.UIDMappings == nil ==> bytes_are(U.data[old(U.n)], defmap(U.euid))
+//@   ensures result == nil && r.GIDMappings == nil ==> bytes_are(U.data[old(U.n) + 2], defmap(U.egid))
 
 // After the clone: the callback runs only after a well-formed ready word from the child and before the
 // ack is written; on any failure the child is killed and reaped and both socket ends are closed
